@@ -71,8 +71,30 @@ def rule_send_sync(ctx, rule="C04-sendsync"):
 PAIRS = ["with_capacity", "reserve", "shrink_to_fit", "shrink_to", "push", "pop", "push_str", "remove", "retain", "insert", "insert_str", "truncate"]
 
 
+def find_unwrap_helper(F):
+    """the crate's "unwrap or panic with the error's message" helper, found by shape (a trait method or
+    a free fn): one Result<T, E> argument, returns its Ok payload, and its only call is to a diverging
+    local fn that receives the Err payload"""
+    for path, b in F.bodies.items():
+        if b.arg_count != 1 or b.j["kind"] == "closure":
+            continue
+        if not b.local_ty(1).startswith("core::result::Result<"):
+            continue
+        ds = [describe(b, ("call", bb) if si == "term" else b.origin_rvalue(x)) for (bb, si, x) in b.defs.get(0, [])]
+        calls = [(callee_name(t), t) for _, t in b.calls()]
+        if ds == ["ok(p1)"] and len(calls) == 1 and calls[0][1].get("local_key") and calls[0][1]["target"] is None and describe(b, b.origin_operand(calls[0][1]["args"][0])) == "err(p1)":
+            return path, calls[0][1]["local_key"]
+    return None, None
+
+
 def rule_pairing(ctx, rule="C05-pair"):
     F = ctx.F
+    global UW
+    uw, panic_fn = find_unwrap_helper(F)
+    ctx.need(rule, "crate", "unwrap-helper", uw is not None, "no `Result -> value or panic(message of the error)` helper found", how="unwrap helper: %s" % uw)
+    if uw is None:
+        return
+    UW = uw
     for nme in PAIRS:
         plain, tr = "LeanString::" + nme, "LeanString::try_" + nme
         b = F.bodies.get(plain)
@@ -82,26 +104,20 @@ def rule_pairing(ctx, rule="C05-pair"):
         ds = [describe(b, ("call", bb) if si == "term" else b.origin_rvalue(x)) for (bb, si, x) in b.defs.get(0, [])]
         args = ", ".join("p%d" % i for i in range(1, b.arg_count + 1))
         want = "%s(%s(%s))" % (UW, tr, args)
+        inlined = "ok(%s(%s))" % (tr, args)   # describe() shows a helper that did not exist on the reference tree by its result
         calls = [callee_name(t) for _, t in b.calls()]
-        ctx.ob(rule, plain, "plain=try.unwrap_with_msg", ds == [want] and calls == [tr, UW], how="%s = try_%s(..).unwrap_with_msg()" % (nme, nme),
+        ctx.ob(rule, plain, "plain=try.unwrap_with_msg", ds in ([want], [inlined]) and calls == [tr, UW], how="%s = try_%s(..).unwrap_with_msg()" % (nme, nme),
                detail="%s is %s (calls %s): the panicking form no longer fails exactly where and how the try_ form does" % (plain, ds, calls))
         f = F.fns.get(tr)
         if f:
             ctx.ob(rule, tr, "returns-ReserveError", f["output"].endswith("errors::reserve_error::ReserveError>"), how="try_%s returns Result<_, ReserveError>" % nme, detail="try_%s returns %s" % (nme, f["output"]))
-    # unwrap_with_msg: Ok arm returns the value, Err arm panics with the error's Display
-    u = F.bodies.get(UW)
-    ctx.need(rule, UW, "anchor", u is not None, "unwrap_with_msg not found")
-    if u:
-        ds = [describe(u, ("call", bb) if si == "term" else u.origin_rvalue(x)) for (bb, si, x) in u.defs.get(0, [])]
-        calls = [(callee_name(t), [describe(u, u.origin_operand(a)) for a in t["args"]]) for _, t in u.calls()]
-        ok = ds == ["ok(p1)"] and calls == [(UW + "::do_panic_with_msg", ["err(p1)"])]
-        ctx.ob(rule, UW, "Ok->value,Err->panic(err)", ok, how="match self { Ok(v) => v, Err(e) => do_panic_with_msg(e) }", detail="unwrap_with_msg returns %s, calls %s" % (ds, calls))
-    d = F.bodies.get(UW + "::do_panic_with_msg")
+    # the helper's Err arm panics with the error's Display and nothing else
+    d = F.bodies.get(panic_fn)
     if d:
         names = [callee_name(t) for _, t in d.calls()]
         disp = [t for _, t in d.calls() if callee_name(t).endswith("::new_display")]
-        ok = len(disp) == 1 and describe(d, d.origin_operand(disp[0]["args"][0])) in ("&p1", "&mem:1", "&local:1", "&mem:error") and names[-1] == "core::panicking::panic_fmt" and not any("new_debug" in n for n in names)
-        ctx.ob(rule, d.path, "message=Display(err)", ok, how="panic!(\"{error}\"): the only argument is the error's Display", detail="do_panic_with_msg builds its message with %s" % names)
+        ok = len(disp) == 1 and describe(d, d.origin_operand(disp[0]["args"][0])) in ("&p1", "&mem:1", "&local:1", "&mem:error", "&mem:err", "p1") and names and names[-1] == "core::panicking::panic_fmt" and not any("new_debug" in n for n in names)
+        ctx.ob(rule, d.path, "message=Display(err)", ok, how="panic!(\"{error}\"): the only argument is the error's Display", detail="the unwrap helper's panic builds its message with %s" % names)
     # constructors that cannot report: From<&str|String|&String|Box<str>> go through Repr::from_str and
     # turn its error into the message panic (unwrap_with_msg), possibly inside a private helper
     from guards import inlined_calls
@@ -112,7 +128,8 @@ def rule_pairing(ctx, rule="C05-pair"):
             if b:
                 n += 1
                 names = [callee_name(t) for _, _, t in inlined_calls(b)]
-                ok = "repr::Repr::from_str" in names and UW in names and not [x for x in names if x in FORBIDDEN_CONSUMERS]
+                seen, leaves, users, parent = ctx.cg.reach([b.path])
+                ok = "repr::Repr::from_str" in seen and (UW in names or UW in seen) and not [x for x in names if x in FORBIDDEN_CONSUMERS]
                 ctx.ob(rule, b.path, "from=from_str.unwrap_with_msg", ok, how="Repr::from_str(text) consumed by unwrap_with_msg", detail="From<%s> calls %s" % (i["trait_args"][0], names))
     ctx.need(rule, "crate", "From-ctors", n >= 4, "only %d From<text> constructors" % n, how="%d From<text> constructors" % n)
     # nowhere is a ReserveError-carrying Result consumed by a method that panics with another message
@@ -157,6 +174,8 @@ def rule_ownership_primitives(ctx, rule="OWNPRIM"):
     for p, v in seen.items():
         if p in allowed_tm:
             ctx.ob(rule, p, "direction", all(x.endswith("-> repr::Repr") for x in v), how="buffer -> Repr", detail="%s transmutes %s" % (p, v))
+    cl = [i for i in F.impls if i["self"] in ("repr::Repr", "repr::heap_buffer::HeapBuffer", "repr::inline_buffer::InlineBuffer", "repr::static_buffer::StaticBuffer") and i["trait"] in ("core::clone::Clone", "core::marker::Copy")]
+    ctx.ob(rule, "crate", "no-Clone/Copy-on-raw-handles", not cl, how="Repr / HeapBuffer / InlineBuffer / StaticBuffer are neither Clone nor Copy (a by-value buffer is always a fresh one)", detail="raw handle type implements %s: handles can be duplicated without touching the reference count" % [(i["self"], i["trait"]) for i in cl])
     bad = []
     for path, b in F.bodies.items():
         for bb, t in b.calls():
